@@ -225,6 +225,10 @@ pub(crate) fn now_ms() -> u64 {
 
 /// Record a seam event in the run's log (never draws from a PRNG, never reads a real clock).
 pub(crate) fn log_event(kind: &str, a: u64, b: u64) {
+    // VERIF_TRACE=1: print the event log of a (single-threaded) replay; reads no clock but the simulated one
+    if trace_on() {
+        eprintln!("[trace t={}ms] {} {} {}", tokio::time::Instant::now().duration_since(trace_epoch()).as_millis(), kind, a, b);
+    }
     NET.with(|n| {
         if let Some(net) = n.borrow_mut().as_mut() {
             net.log.add_str(kind);
@@ -235,6 +239,19 @@ pub(crate) fn log_event(kind: &str, a: u64, b: u64) {
             net.events += 1;
         }
     });
+}
+
+pub(crate) fn trace_on() -> bool {
+    static ON: std::sync::OnceLock<bool> = std::sync::OnceLock::new();
+    *ON.get_or_init(|| std::env::var_os("VERIF_TRACE").is_some())
+}
+
+thread_local! {
+    static TRACE_EPOCH: RefCell<Option<tokio::time::Instant>> = const { RefCell::new(None) };
+}
+
+fn trace_epoch() -> tokio::time::Instant {
+    TRACE_EPOCH.with(|e| *e.borrow_mut().get_or_insert_with(tokio::time::Instant::now))
 }
 
 /// Harness side: start listening on an address the DUT may connect to.
@@ -454,6 +471,9 @@ impl TcpStream {
         let off = h.written;
         h.wlog.push((off, now_ms()));
         log_event("write", id * 2 + self.side as u64, n as u64);
+        if std::env::var("VERIF_TRACE").map(|v| v == "2").unwrap_or(false) {
+            eprintln!("{}", std::backtrace::Backtrace::force_capture());
+        }
         if lat == 0 && h.queue.is_empty() {
             h.buf.extend(&data[..n]);
             if let Some(w) = h.reader_waker.take() {
